@@ -48,7 +48,7 @@ const sigLeak = "F28:takeover-stored-block-emits-dictionary"
 // read limit (32768 bytes) on the dialled connection - coder/dialer.go lifts it with
 // SetReadLimit(-1) - so a message whose WebSocket payload exceeds 32 KiB, sent to a dialler,
 // fails its Read ("read limited at 32769 bytes") and closes the connection.
-const sigReadLimit = "F32:nhooyr-dialer-keeps-32k-read-limit"
+const sigReadLimit = "F43:nhooyr-dialer-keeps-32k-read-limit"
 
 type msgSpec struct {
 	N    int    `json:"n"`
@@ -69,9 +69,9 @@ type caseIn struct {
 	CC      compCfg     `json:"cc"`
 	Conc    bool        `json:"conc"`
 	Lock    bool        `json:"lockstep,omitempty"` // concurrent writers meet at a spin barrier before their i-th message
-	Writers [][]msgSpec `json:"writers"`         // stream: per writer goroutine; dgram: per handle (0 = Transport.WriteUnreliable, k>0 = k-th AsUnreliable())
-	P       int         `json:"P,omitempty"`     // dgram: segment payload size set through the hook (0 = the default 1188)
-	Burst   int         `json:"burst,omitempty"` // dgram pacing: pause after every Burst messages of a writer
+	Writers [][]msgSpec `json:"writers"`            // stream: per writer goroutine; dgram: per handle (0 = Transport.WriteUnreliable, k>0 = k-th AsUnreliable())
+	P       int         `json:"P,omitempty"`        // dgram: segment payload size set through the hook (0 = the default 1188)
+	Burst   int         `json:"burst,omitempty"`    // dgram pacing: pause after every Burst messages of a writer
 	PauseUs int         `json:"pause_us,omitempty"`
 	ReadVia string      `json:"read_via,omitempty"` // dgram: handle | transport (wt: Transport.ReadUnreliable)
 	Backend string      `json:"backend,omitempty"`  // ws: backend of the binary that generated the case (informational)
@@ -180,11 +180,10 @@ type readRes struct {
 }
 
 type result struct {
-	term    string
-	obs     map[string]interface{}
-	direct  string
-	sig     string
-	skipped string // set-up could not be done (not a verdict on the transports)
+	term   string
+	obs    map[string]interface{}
+	direct string
+	sig    string
 }
 
 var srv servers
@@ -677,13 +676,14 @@ collect:
 func runCase(ci *caseIn) (res result) {
 	var pr *pair
 	var err error
-	for attempt := 0; attempt < 3; attempt++ {
+	for attempt := 0; attempt < 4; attempt++ {
 		if pr, err = srv.newPair(ci.Tr, compressCfg(ci)); err == nil {
 			break
 		}
+		time.Sleep(time.Duration(attempt+1) * 200 * time.Millisecond)
 	}
 	if err != nil {
-		res.direct = "set-up failed three times: " + err.Error()
+		res.direct = "set-up (dial + accept on loopback) failed four times: " + err.Error()
 		return
 	}
 	defer pr.close()
@@ -866,9 +866,13 @@ func main() {
 	out := flag.String("out", "", "output directory")
 	replay := flag.String("replay", "", "replay file (JSON with an 'input' field)")
 	only := flag.String("only", "", "comma separated subset of wt,quic,ws (default all); the random stream is the same as in a full run")
+	kinds := flag.String("kinds", "", "stream|dgram: run only that kind of case (default both); the random stream is the same as in a full run")
 	flag.Parse()
+	if *kinds != "" && *kinds != "stream" && *kinds != "dgram" {
+		fmt.Fprintln(os.Stderr, "-kinds takes stream or dgram")
+		os.Exit(2)
+	}
 	w := coqfmt.NewWriter(*out, "C13", "From Iscp Require Import Model.Framing Model.Loopback.", "lb_case", "lb_judge", 60)
-	skipped := 0
 	add := func(ci *caseIn) {
 		kind, nt := describe(ci)
 		t0 := time.Now()
@@ -942,7 +946,7 @@ func main() {
 	r := rng.New(*seed)
 	run := func(cr *rng.R, tr string, gen func(cr *rng.R) *caseIn) {
 		ci := gen(cr) // generated even when skipped: -only sees the cases of a full run
-		if want[tr] {
+		if want[tr] && (*kinds == "" || *kinds == ci.Kind) {
 			add(ci)
 		}
 	}
@@ -1018,11 +1022,13 @@ func main() {
 		})
 	}
 	rule := "real transports over loopback sockets (wt = transport/webtransport, quic = transport/quic, ws = transport/websocket with the " + wsBackend +
-		" backend), the repository's transport on both ends, a fresh connection per case. stream: per transport every level {0,1,6,9} (ws: off, per-message x {1,6,9}, context takeover window bits {0,1,8,15} x {1,6,9}) x {one writer, 2-4 concurrent writers}, 6-14 messages per writer with sizes 0,1,2,3,5,17,100,254-258,1000,4095,4096, random <600, one or two of 65535-70000, plus cases with 1 MiB messages and writers one after the other; dgram (wt, quic): segment payload size 1-8 and 100 (hook) and the real 1188, messages of 1-6 segments at k*P, k*P-1, (k-1)*P+1, through Transport.WriteUnreliable and 0-3 AsUnreliable() handles, round robin or one goroutine per handle, paced (pause after 2-4 messages), read through a handle or Transport.ReadUnreliable; loss is never a violation. non-trivial = stream: concurrent writers or >=3 messages; dgram: a multi-segment message and more than one handle; distinct = distinct Coq case terms"
+		" backend), the repository's transport on both ends, a fresh connection per case; one round = 87 cases (26 wt, 26 quic, 35 ws), quick = 3 rounds, thorough = 30. stream: per transport every level {0,1,6,9} (ws: off, per-message x {1,6,9}, context takeover window bits {0,1,8,15} x {1,6,9}) x {one writer, 2-4 concurrent writers}, 6-14 messages per writer with sizes 0,1,2,3,5,17,100,254-258,1000,4095,4096, random <600, one or two of 65535-70000, plus cases with 1 MiB messages and writers one after the other; dgram (wt, quic): segment payload size 1-8 and 100 (hook) and the real 1188, messages of 1-6 segments at k*P, k*P-1, (k-1)*P+1, through Transport.WriteUnreliable and 0-3 AsUnreliable() handles, round robin or one goroutine per handle (3/4 of the concurrent cases: writers meet at a spin barrier before their i-th message, so that their Write calls overlap), paced (pause after 2-4 messages), read through a handle or Transport.ReadUnreliable; loss is never a violation. non-trivial = stream: concurrent writers or >=3 messages; dgram: a multi-segment message and more than one handle; distinct = distinct Coq case terms"
 	if *only != "" {
 		rule = "(-only " + *only + ") " + rule
 	}
-	_ = skipped
+	if *kinds != "" {
+		rule = "(-kinds " + *kinds + ") " + rule
+	}
 	if err := w.Flush(*seed, *tier, rule, false, map[string]interface{}{"ws_backend": wsBackend}); err != nil {
 		fmt.Fprintln(os.Stderr, err)
 		os.Exit(2)
